@@ -5,6 +5,7 @@ real code: each input is replayed on the implementation by `py/props/c10.py`).
 import WpModel.Props.C10
 import WpModel.Props.C10Draw
 import WpModel.Props.C10SplitBorders
+import WpModel.Props.C10Columns
 
 namespace Wp.Witness.C10
 open Wp Wp.Table Wp.C10
@@ -170,5 +171,28 @@ theorem rtl_clipped_grid_wrong_column :
     (BorderDraw.segments clippedRtlFragment).map (·.map (fun s => (s.side, s.width, s.y))) =
       .ok [(.left, 1, 0), (.top, 1, 10), (.left, 1, 19 / 2), (.top, 1, 20), (.left, 5, 19 / 2)] := by
   decide +kernel
+
+/-- Finding `rtl-column-group-negative-width`.  `direction: rtl`, three columns 20 / 30 / 42 wide,
+`border-spacing: 2px`, a `<colgroup>` of the first two: `table_layout` sets
+`group.width = last.position_x + last.width - first.position_x` with `first` the rightmost column (x = 78)
+and `last` the one to its left (x = 46, width 30): the group box is x = 78, **width −2** — its background
+is not painted over its columns (left to right the same group is x = 2, width 52).  The general statement
+is `C10Columns.group_extent_rtl_nonpos`.  Replayed on the real code by `py/props/c10.py`
+(`rtl_colgroup_replay`). -/
+theorem rtl_column_group_negative_width :
+    (TableColumns.layoutGroup (colPositions false 0 100 2 [20, 30, 42]).positions [20, 30, 42] 2 10
+        (C10Columns.span 0 2)).map (·.2) = .ok ⟨78, 2, -2, 10⟩ ∧
+    (TableColumns.layoutGroup (colPositions true 0 100 2 [20, 30, 42]).positions [20, 30, 42] 2 10
+        (C10Columns.span 0 2)).map (·.2) = .ok ⟨2, 2, 52, 10⟩ ∧
+    ¬ (∀ (x W s : Rat) (cw : List Rat) (g k : Nat), g + k < cw.length → (∀ w ∈ cw, 0 ≤ w) → 0 ≤ s →
+        0 ≤ C10Columns.colX false x W s cw (g + k) + cw.getD (g + k) 0 - C10Columns.colX false x W s cw g) := by
+  refine ⟨by decide +kernel, by decide +kernel, ?_⟩
+  intro h
+  have h1 := h 0 100 2 [20, 30, 42] 0 1 (by decide) (by intro w hw; simp at hw; rcases hw with rfl | rfl | rfl <;> norm_num)
+    (by norm_num)
+  have h2 := (C10Columns.group_extent_rtl_nonpos 0 100 2 [20, 30, 42] 0 1 (by decide)
+    (by intro w hw; simp at hw; rcases hw with rfl | rfl | rfl <;> norm_num) (by norm_num) (by decide)).1
+  rw [h2] at h1
+  norm_num [sumR] at h1
 
 end Wp.Witness.C10
